@@ -715,7 +715,11 @@ class Interp:
 
     def iterate(self, v):
         if isinstance(v, SStr):
-            raise HarnessError('iteration over a symbolic string')
+            # fork over the length (bounded), then yield the characters
+            n = models.concretize_int(models.slen(v), 0, 17)
+            if n >= 17:
+                raise BoundHit('iteration over a symbolic string longer than 16')
+            return iter([models.str_getitem(v, i) for i in range(n)])
         if isinstance(v, Sym):
             raise TypeError("'%s' object is not iterable" % type(v).__name__)
         it = getattr(type(v), '__iter__', None)
